@@ -409,6 +409,78 @@ func runC11(c *Ctx) {
 					return false
 				}
 				fn := calleeOf(info, call)
+				// a responder picked as a function value: ch.responder()(w, r, err) — it answers if every function the
+				// selector can return answers on all of its paths
+				if fn == nil && depth < 2 {
+					if sel, ok := ast.Unparen(call.Fun).(*ast.CallExpr); ok {
+						if sfn := calleeOf(info, sel); sfn != nil && sfn.Pkg() == p.Types {
+							for _, sfd := range allFuncDecls(p) {
+								if info.Defs[sfd.Name] != types.Object(sfn) || sfd.Body == nil {
+									continue
+								}
+								ntargets, allAnswer := 0, true
+								ast.Inspect(sfd.Body, func(q ast.Node) bool {
+									if _, isLit := q.(*ast.FuncLit); isLit {
+										return false
+									}
+									ret, ok := q.(*ast.ReturnStmt)
+									if !ok || len(ret.Results) != 1 {
+										return true
+									}
+									var target types.Object
+									switch tv := ast.Unparen(ret.Results[0]).(type) {
+									case *ast.Ident:
+										target = info.Uses[tv]
+									case *ast.SelectorExpr:
+										target = info.Uses[tv.Sel]
+									}
+									tfn, _ := target.(*types.Func)
+									if tfn == nil {
+										allAnswer = false
+										return true
+									}
+									ntargets++
+									// the target called with the same arguments
+									synth := &ast.ExprStmt{X: &ast.CallExpr{Fun: ret.Results[0], Args: call.Args}}
+									_ = synth
+									answered := false
+									for _, tfd := range allFuncDecls(p) {
+										if info.Defs[tfd.Name] != types.Object(tfn) || tfd.Body == nil {
+											continue
+										}
+										hden := &denum{info: info, pkg: p.Types, inits: map[types.Object]ast.Expr{}, limit: 2000, opaqueLoops: true}
+										hden.finish(hden.run(tfd.Body.List, []dstate{{env: map[types.Object]ast.Expr{}}}))
+										if hden.undecided != "" || len(hden.paths) == 0 {
+											continue
+										}
+										all := true
+										for _, hp := range hden.paths {
+											pa := false
+											for _, hs := range hp.Trace {
+												if a, _ := stmtAnswers(hs, depth+1); a {
+													pa = true
+												}
+											}
+											if !pa {
+												all = false
+												why = tfd.Name.Name + " can return without answering"
+											}
+										}
+										answered = all
+									}
+									if !answered {
+										allAnswer = false
+									}
+									return true
+								})
+								if ntargets > 0 && allAnswer {
+									ans = true
+								}
+							}
+						}
+					}
+					return !ans
+				}
 				if fn == nil || fn.Pkg() != p.Types || depth >= 2 {
 					return true
 				}
